@@ -221,7 +221,7 @@ def st_stage(draw, op, node, m, ctx, allowed, budget):
         out = {'op': 'concat', 'how': draw(st.sampled_from(['method', 'method_list', 'function'])), 'ins': ins}
         if draw(st.integers(0, 3)) == 0:
             # the same dataset OBJECT occurs several times among the inputs (a.concatenate(b, a)), possibly often
-            reps = draw(st.sampled_from([1, 1, 2, 4]))
+            reps = draw(st.sampled_from([1, 1, 1, 2]))
             out['ins'] = (ins + [ins[0]]) * reps
             out['share'] = True
         return out
